@@ -47,6 +47,7 @@ type engine struct {
 	workers            int
 	parallelHarness    int
 	evdir              string
+	pathSem            chan struct{}
 	dbOnce             sync.Once
 	dbFields           map[string]int
 	loadSeconds        float64
@@ -407,7 +408,9 @@ func (e *engine) explore(h *harnessRun, opts exploreOpts) {
 			busy++
 			mu.Unlock()
 
+			e.pathSem <- struct{}{} // at most `workers` paths execute at a time across all harnesses of this process
 			m := e.runPath(h, solver, item, nil)
+			<-e.pathSem
 
 			mu.Lock()
 			busy--
